@@ -6,7 +6,7 @@ import re
 import csr as C
 from csr import path_of
 from engine import Agg, Cell, Engine, Opaque, Ref, State, UNIT
-from mir import Unsupported
+from mir import Unsupported, find
 from models import Models, deref
 
 
@@ -54,6 +54,7 @@ def ob_debug_no_secret(fns):
     eng = Engine(fns, models)
     env = FmtEnv(models, "fmt")
     models.call = env
+    models.resolve = env.resolve
     kp = Agg("KeyPair", [Cell(Opaque("field", "kind")), Cell(Ref(Cell(Opaque("field", "alg")))), Cell(Opaque("secret", "serialized_der"))])
     n = 0
     for (s2, _ret) in eng.run_fn(cands[0], [Ref(Cell(kp)), Ref(Cell(Opaque("formatter")))], State()):
@@ -82,4 +83,85 @@ def ob_debug_no_secret(fns):
     ob.result = "pass" if n else "inconclusive"
     ob.battery, ob.battery_features = ("debug-secret", 3), []
     ob.bound_text = "loop-free code, every path; the Debug implementations of ring's key types (reached through the `kind` field) are environment"
+    return ob
+
+
+# ------------------------------------------------------------------------------------------ public key accessors (ring build)
+
+class TaintEnv(FmtEnv):
+    """every call made while a public-key accessor runs is inspected: none may receive anything derived from KeyPair.serialized_der"""
+
+    def __call__(self, eng, callee, args, st):
+        def desc(v, depth=0):
+            v = deref(v)
+            if depth > 6:
+                return "..."
+            if isinstance(v, Agg) and v.kind == "KeyPair":
+                return "self"          # handing the key pair object itself on is not a use of the stored document
+            if isinstance(v, Agg):
+                return v.kind + "{" + ", ".join(desc(f.v, depth + 1) for f in v.fields) + "}"
+            if isinstance(v, Opaque) and isinstance(v.data, (list, tuple)):
+                return v.what + "(" + ", ".join(desc(x, depth + 1) for x in v.data) + ")"
+            if isinstance(v, Opaque) and isinstance(deref(v.data), (Opaque, Agg)):
+                return v.what + "(" + desc(v.data, depth + 1) + ")"
+            return path_of(v)
+        ds = [desc(a) for a in args]
+        if any("secret(" in d for d in ds):
+            st.events.append(("taint", re.sub(r"::<.*", "", callee), ds))
+        if re.match(r"^(key_pair::)?serialize_public_key_der::<", callee):
+            return None        # execute the real body
+        return FmtEnv.__call__(self, eng, callee, args, st)
+
+
+def ob_pubkey_no_secret(fns):
+    import z3
+    from dn import Obligation
+    from engine import EnumV
+    ob = Obligation("public_key_without_secret",
+                    "ring build, KeyPair::public_key_der / public_key_raw (der_bytes) / public_key_pem for the Ec, Ed and Rsa kinds: no call they make receives, "
+                    "and nothing they return is built from, the stored private key document (KeyPair.serialized_der) - the public key comes from the crypto "
+                    "library's key object only (the Remote kind is decided by the Kani non-interference queries)",
+                    ["KeyPair::public_key_der", "<KeyPair as PublicKeyData>::der_bytes", "KeyPair::public_key_pem", "serialize_public_key_der"])
+    targets = [(r"::public_key_der$", r"^&(key_pair::)?KeyPair$"), (r"::der_bytes$", r"^&(key_pair::)?KeyPair$"), (r"::public_key_pem$", r"^&(key_pair::)?KeyPair$")]
+    n = 0
+    eng = None
+    for (pat, a0) in targets:
+        f = find(fns, pat, a0)
+        models = Models(fns)
+        eng = Engine(fns, models)
+        env = TaintEnv(models, "taint")
+        models.call = env
+        models.resolve = env.resolve
+        orig_len = models.len_of
+
+        def len_of(v, _orig=orig_len, _m=models):
+            try:
+                return _orig(v)
+            except Unsupported:
+                _m.fresh += 1
+                return z3.Int(f"len!{_m.fresh}")
+        models.len_of = len_of
+        kind = EnumV("KeyPairKind", z3.Int("key_kind"), [("Ec", [Opaque("ring-key", "Ec")]), ("Ed", [Opaque("ring-key", "Ed")]), ("Rsa", [Opaque("ring-key", "Rsa"), Opaque("padding")])])
+        kp = Agg("KeyPair", [Cell(kind), Cell(Ref(Cell(Opaque("field", "alg")))), Cell(Opaque("secret", "serialized_der"))])
+        st = State()
+        st.pc.append(z3.And(z3.Int("key_kind") >= 0, z3.Int("key_kind") <= 2))
+        for (s2, ret) in eng.run_fn(f, [Ref(Cell(kp))], st):
+            if not s2.feasible():
+                continue
+            n += 1
+            ob.paths += 1
+            bad = [e for e in s2.events if e[0] == "taint"]
+            rdesc = path_of(ret) if not isinstance(deref(ret), Opaque) or not isinstance(deref(ret).data, (list, tuple)) else \
+                deref(ret).what + "(" + ", ".join(path_of(x) for x in deref(ret).data) + ")"
+            if bad or "secret(" in rdesc:
+                what = f"{bad[0][1]}({', '.join(bad[0][2])[:160]})" if bad else f"the returned value {rdesc[:160]}"
+                ob.result = "fail"
+                ob.reason = f"{f.name.split('::')[-1]}: the stored private key document reaches {what}"
+                ob.cex = {"op": "debug-secret", "features": [], "what": ob.reason}
+                return ob
+    ob.reach = n > 0
+    ob.functions = sorted(eng.stats["functions"]) if eng else []
+    ob.result = "pass" if n else "inconclusive"
+    ob.battery, ob.battery_features = ("debug-secret", 3), []
+    ob.bound_text = "the three crypto-backed key kinds x three accessors, every path; ring's key objects are environment"
     return ob
